@@ -7,6 +7,7 @@ import (
 	"strings"
 
 	capnp "capnproto.org/go/capnp/v3"
+	"capnproto.org/go/capnp/v3/verifx"
 	"verifharness/lib"
 )
 
@@ -28,6 +29,12 @@ func execGen(t []string) string {
 	}
 	for len(args) < 4 {
 		args = append(args, 0)
+	}
+	if t[0] == "needsEscape" {
+		if verifx.NeedsEscape(byte(args[0])) {
+			return "ok 1"
+		}
+		return "ok 0"
 	}
 	res, ok := capnp.VerifCall(t[0], args)
 	if !ok {
